@@ -6,6 +6,7 @@ import (
 	"os"
 
 	"pdverif/internal/cli"
+	_ "pdverif/internal/gc"
 	_ "pdverif/internal/idalloc"
 )
 
